@@ -24,23 +24,27 @@ def S(*names):
 def _model_check(ctx):
     quick = ctx.tier == "quick"
     full3 = {"S1": ALLD, "S2": ALLDN, "S3": ALLDN}
-    # the design with the point check: every invariant, every interleaving, every configuration
-    r = ctx.tlc_expect_ok("Handshake", "MC_Handshake.cfg", name="mc_guarded_3slots", workers=4,
-                          consts=dict(full3, CheckLowOrder="TRUE"), timeout=900)
-    out = {"guarded": {"distinct": r.distinct, "ok": True}}
-    # the design without it (what the current code does): TLC must find the attacks
+    two = {"S1": ALLD, "S2": ALLDN, "S3": S("none")}
+    chain = {"S1": S("rAB", "rBA"), "S2": S("rAE", "rBE", "sA"), "S3": S("sA", "sB"), "Sorted": "FALSE"}
+    out = {}
+    # the design WITH the point check: every invariant, every interleaving, every configuration
+    plans = [("2slots", two), ("3slots_chain", chain)] if quick else [("3slots", full3)]
+    for nm, c in plans:
+        r = ctx.tlc_expect_ok("Handshake", "MC_Handshake.cfg", name="mc_guarded_" + nm, workers=4,
+                              consts=dict(c, CheckLowOrder="TRUE"), timeout=1200)
+        out["guarded_" + nm] = {"distinct": r.distinct, "generated": r.generated, "ok": True}
+    # the design WITHOUT it (what the code does as long as the finding is open): TLC must find the attacks
     r = ctx.tlc("Handshake", "MC_Handshake.cfg", name="mc_unguarded_resp", workers=4,
-                consts={"CheckLowOrder": "FALSE"} if quick else dict(full3, CheckLowOrder="FALSE"),
-                timeout=900, allow_violation=True, count=False)
-    out["unguarded_RespAuth"] = {"violated": r.violated, "distinct": r.distinct}
-    if r.violated not in ("RespAuth", "ReqAuth", "Agreement"):
-        raise vf.Infra("unguarded model: expected an authentication counterexample, got %r" % r.violated)
-    if not quick:
-        r = ctx.tlc("Handshake", "MC_Handshake_ReqAuth.cfg", name="mc_unguarded_req", workers=4,
-                    consts=dict(full3, CheckLowOrder="FALSE"), timeout=900, allow_violation=True, count=False)
-        out["unguarded_ReqAuth"] = {"violated": r.violated, "distinct": r.distinct}
-        if r.violated != "ReqAuth":
-            raise vf.Infra("unguarded model: expected a ReqAuth counterexample, got %r" % r.violated)
+                consts=dict(two if quick else full3, CheckLowOrder="FALSE"),
+                timeout=1200, allow_violation=True, count=False)
+    out["unguarded_RespAuth"] = {"violated": r.violated, "distinct": r.distinct, "depth": r.depth}
+    if r.violated not in ("RespAuth", "Agreement"):
+        raise vf.Infra("unguarded model: expected a RespAuth counterexample, got %r" % r.violated)
+    r = ctx.tlc("Handshake", "MC_Handshake_ReqAuth.cfg", name="mc_unguarded_req", workers=4,
+                consts=dict(chain if quick else full3, CheckLowOrder="FALSE"), timeout=1200, allow_violation=True, count=False)
+    out["unguarded_ReqAuth"] = {"violated": r.violated, "distinct": r.distinct, "depth": r.depth}
+    if r.violated != "ReqAuth":
+        raise vf.Infra("unguarded model: expected a ReqAuth counterexample, got %r" % r.violated)
     ctx.extra["model_checking"] = out
 
 
@@ -97,12 +101,10 @@ def _gen(ctx):
     add("two", r.printed.get("SCRIPT", []))
     if quick:
         # three sessions: attack traces of the unguarded model in the configurations that chain sessions
-        for nm, s1, s2, s3 in [("chainA", S("rAB"), S("rAE", "rBE"), S("sA", "sB")),
-                               ("chainB", S("rAE", "rBE"), S("sA"), S("sB"))]:
-            r = ctx.tlc("GenHandshake", "Gen_Handshake.cfg", name="gen_3slots_" + nm, workers=4,
-                        consts=dict(base, S1=s1, S2=s2, S3=s3, Sorted="FALSE", MaxJunk="0", AttackOnly="TRUE"),
-                        timeout=900, heap="6g")
-            add("attack3_" + nm, r.printed.get("SCRIPT", []), limit=1500)
+        r = ctx.tlc("GenHandshake", "Gen_Handshake.cfg", name="gen_3slots_chain", workers=4,
+                    consts=dict(base, S1=S("rAB"), S2=S("rAE", "rBE"), S3=S("sA", "sB"), Sorted="FALSE", MaxJunk="0", AttackOnly="TRUE"),
+                    timeout=900, heap="6g")
+        add("attack3", r.printed.get("SCRIPT", []), limit=600)
     else:
         r = ctx.tlc("GenHandshake", "Gen_Handshake.cfg", name="gen_3slots", workers=4,
                     consts=dict(base, S1=ALLD, S2=ALLDN, S3=ALLDN, MaxJunk="1", AttackOnly="FALSE"),
@@ -135,19 +137,15 @@ def _assign_variants(ctx, fam):
             if junk:
                 cfg["mut"] = "all" if _relay_junk_base(sc) and (quick is False or sc["cfg"]["sess"][0]["owner"] == "A") else ("sample:2" if quick else "sample:6")
             cfg["steps"] = True
+            # step-by-step recordings of every sampled corruption (the exhaustive corruption
+            # families only in the thorough tier)
+            cfg["stepsall"] = junk and (cfg.get("mut") != "all" or not quick)
             sc["family"] = name
             scripts.append(sc)
     return scripts
 
 
 # ----------------------------------------------------------------------------------- validation
-def _blocks(events):
-    out = []
-    for bid, evs in vf.split_traces(events):
-        out.append((bid, evs))
-    return out
-
-
 def _failing(fin):
     """which property clause fails on an observed fin record (classification only; the verdict is TLC's)"""
     S_ = fin["sess"]
@@ -157,8 +155,10 @@ def _failing(fin):
         return r["oe"] != "-" and s["oe"] != "-" and s["pe"] == r["oe"] and r["pe"] == s["oe"]
     for s in S_:
         if s["role"] == "rsp" and s["ret"] == "ok" and s["key"] in ("A", "B"):
-            if not any(r["role"] == "req" and r["owner"] == s["key"] and r["s3"] and same(r, s) for r in S_):
+            if not any(r["role"] == "req" and r["owner"] == s["key"] and r["target"] == s["owner"] and r["s3"] and same(r, s) for r in S_):
                 bad.append(("resp", s))
+        if s["role"] == "rsp" and s["ret"] == "ok" and len(s["in"]) == 3 and s["in"][2] == "I:ack-":
+            bad.append(("ack", s))
         if s["role"] == "rsp" and s["ret"] == "ok" and s["key"] == "-":
             bad.append(("nokey", s))
         if s["role"] == "req" and s["ret"] == "ok" and s["target"] != "E":
@@ -167,12 +167,34 @@ def _failing(fin):
     return bad
 
 
-def _validate(ctx, name, blocks, consts, max_rejects=3):
-    evs = []
-    for bid, b in blocks:
-        evs.append({"ev": "reset", "id": bid})
-        evs.append(b[-1])
-    return vf.validate_blocks(ctx, MON, evs, name, consts=consts, max_rejects=max_rejects, timeout=1200)
+MON_FIELDS = ("role", "owner", "target", "ret", "key", "oe", "pe", "s3", "s4", "in")
+
+
+def _validate(ctx, name, blocks, tolerate, max_rejects=3):
+    """TLC evaluates the property monitor on the fin record of every run (one line per run).
+    Rejected runs are cut out and the rest is validated again.  Returns (accepted, rejects)."""
+    cur = list(blocks)
+    rejects = []
+    d = ctx.sub("val_" + name)
+    rounds = 0
+    while cur:
+        rounds += 1
+        tp = os.path.join(d, "t%d.ndjson" % rounds)
+        vf.write_ndjson(tp, [{"ev": "fin", "sess": [{k: s[k] for k in MON_FIELDS} for s in evs[-1]["sess"]]} for _, evs in cur])
+        ok, info = ctx.validate_trace(MON[0], MON[1], tp, name="%s_%d" % (name, rounds),
+                                      consts={"TolerateLow": "TRUE" if tolerate else "FALSE"}, timeout=1200)
+        if ok:
+            break
+        if "high" not in info:
+            raise vf.Infra("monitor broke on observed trace: %s" % info)
+        bi = info["high"]
+        bid, evs = cur[bi]
+        rejects.append({"id": bid, "info": info, "events": evs})
+        cur = cur[:bi] + cur[bi + 1:]
+        if len(rejects) >= max_rejects:
+            cur = []
+            break
+    return len(cur), rejects
 
 
 def _run(ctx, replay=None):
@@ -197,20 +219,15 @@ def _run(ctx, replay=None):
     m = re.search(r"VERIF-LOWPOINTS (.*)", out)
     if m:
         ctx.extra["low_points"] = m.group(1).split("; ")
-    blocks = _blocks(events)
-    resets = {}
-    stepblocks = []
-    seen_sid = set()
+    # the reset records carry the concretisation of each run
+    resets = {e["id"]: e for e in events if e.get("ev") == "reset"}
+    blocks = sorted(vf.split_traces(events), key=lambda b: (resets[b[0]]["sid"], b[0]))
+    if len(resets) != len(blocks):
+        raise vf.Infra("duplicate run identifiers in the recorded trace")
     for bid, evs in blocks:
         if not evs or evs[-1].get("ev") != "fin":
             raise vf.Infra("block %s has no fin record" % bid)
-    # the reset records carry the concretisation; split_traces dropped them, so re-read
-    cur = None
-    for e in events:
-        if e.get("ev") == "reset":
-            resets[e["id"]] = e
-    for s in scripts:
-        seen_sid.add(s["id"])
+    seen_sid = {s["id"] for s in scripts}
     got = {resets[b]["sid"] for b, _ in blocks}
     if got != seen_sid:
         raise vf.Infra("driver did not record every script (%d of %d)" % (len(got), len(seen_sid)))
@@ -241,55 +258,56 @@ def _run(ctx, replay=None):
         return {"script": {"id": sc["id"], "cfg": cfg, "steps": sc["steps"]}, "concretisation": rs,
                 "observed": evs, "model_expectation": sc.get("expect")}
 
-    # pass 1: the property monitor, strict
-    acc, rejects = _validate(ctx, "mon", blocks, {"TolerateLow": "FALSE"})
+    # pass 1: the property monitor, strict, over every run
     bymap = dict(blocks)
-    other = []
-    if rejects:
-        lowkeys = {}
-        for rj in rejects:
-            fin = rj["info"].get("line", {})
-            bad = _failing(fin) if fin.get("ev") == "fin" else []
-            if bad and all(s["pe"] == "low" and kind in ("resp", "req") for kind, s in bad):
-                key = KEY_RESP if any(k == "resp" for k, _ in bad) else KEY_REQ
-                lowkeys.setdefault(key, []).append(rj)
-            else:
-                other.append(rj)
-        # pass 2: tolerate the degenerate-ephemeral finding so that any OTHER violation still surfaces
-        ctx.traces_validated -= acc
-        acc2, rejects2 = _validate(ctx, "mon_tolerant", blocks, {"TolerateLow": "TRUE"})
-        seen_other = {rj["id"] for rj in other}
-        for rj in rejects2:
-            if rj["id"] not in seen_other:
-                other.append(rj)
-        # how many runs exhibit the finding (counted with the same formulas, for the evidence only)
-        nlow = {KEY_RESP: 0, KEY_REQ: 0}
+    acc, rejects = _validate(ctx, "mon", blocks, False, max_rejects=1)
+    if not rejects:
+        ctx.traces_validated += acc
+    else:
+        # pass 2: excuse sessions that were fed a degenerate ephemeral, so that any OTHER violation surfaces
+        acc2, other = _validate(ctx, "mon_tolerant", blocks, True, max_rejects=3)
+        ctx.traces_validated += acc2
+        for rj in other:
+            line = rj["info"].get("line", {})
+            what = "real handshake code breaks C06 (not explained by a degenerate ephemeral): observed %s" % json.dumps(line, sort_keys=True)[:700]
+            ctx.violation(what, replay_obj(rj["id"], bymap[rj["id"]]))
+        # the runs the tolerant pass excused: pick one canonical run per clause, have TLC reject it
+        # on its own (strict), and report it under its canonical key
+        cands = {KEY_RESP: [], KEY_REQ: []}
         for bid, evs in blocks:
             bad = _failing(evs[-1])
-            if bad and all(s["pe"] == "low" for _, s in bad):
-                nlow[KEY_RESP if any(k == "resp" for k, _ in bad) else KEY_REQ] += 1
-                if KEY_REQ not in lowkeys and any(k == "req" for k, _ in bad) and not any(k == "resp" for k, _ in bad):
-                    lowkeys[KEY_REQ] = [{"id": bid, "info": {"line": evs[-1]}, "events": evs, "at": len(evs) - 1}]
-        ctx.extra["runs_exhibiting_finding"] = nlow
-        for key, rjs in sorted(lowkeys.items()):
-            # canonical replay: the shortest script of the lowest id
-            rj = sorted(rjs, key=lambda r: (len(byid[resets[r["id"]]["sid"]]["steps"]), r["id"]))[0]
-            fin = rj["info"]["line"]
-            bad = _failing(fin)
-            k, s = [b for b in bad if b[0] == ("resp" if key == KEY_RESP else "req")][0]
+            if bad and all(s["pe"] == "low" and kind in ("resp", "req") for kind, s in bad):
+                if any(k == "resp" for k, _ in bad):
+                    cands[KEY_RESP].append(bid)
+                if any(k == "req" for k, _ in bad):
+                    cands[KEY_REQ].append(bid)
+        ctx.extra["runs_exhibiting_finding"] = {k: len(v) for k, v in cands.items()}
+        reported = 0
+        for key in (KEY_RESP, KEY_REQ):
+            if not cands[key]:
+                continue
+            bid = sorted(cands[key], key=lambda b: (len(byid[resets[b]["sid"]]["steps"]), resets[b]["sid"], b))[0]
+            _, rj1 = _validate(ctx, "mon_one_" + key.split(":")[1][:4], [(bid, bymap[bid])], False, max_rejects=1)
+            if not rj1:
+                raise vf.Infra("classification disagrees with the TLC monitor on run %s" % bid)
+            reported += 1
+            fin = bymap[bid][-1]
+            kind = "resp" if key == KEY_RESP else "req"
+            s_ = [b for k, b in _failing(fin) if k == kind][0]
             if key == KEY_RESP:
-                what = ("responder of %s returned the account key of %s although %s never ran a session with this ephemeral pair: "
-                        "the peer sent a degenerate X25519 ephemeral (%s) and replayed a proof signed over the constant shared secret "
-                        "[%d recorded runs]" % (s["owner"], s["key"], s["key"], resets[rj["id"]]["low"], nlow[key]))
+                what = ("responder of account %s returned the account key of %s although %s never ran a session with this "
+                        "ephemeral pair: the peer sent a degenerate X25519 ephemeral (%s) and replayed a proof signed over the "
+                        "constant shared secret [%d recorded runs]" % (s_["owner"], s_["key"], s_["key"], resets[bid]["low"], len(cands[key])))
             else:
                 what = ("requester %s->%s succeeded against an endpoint that does not hold the target's private key: degenerate "
                         "ephemeral (%s) + replay of a step-4 box sealed for the constant shared secret [%d recorded runs]"
-                        % (s["owner"], s["target"], resets[rj["id"]]["low"], nlow[key]))
-            ctx.classify(key, what, replay_obj(rj["id"], bymap[rj["id"]]))
-    for rj in other:
-        line = rj["info"].get("line", {})
-        what = "real handshake code breaks C06: observed %s" % json.dumps(line, sort_keys=True)[:600]
-        ctx.violation(what, replay_obj(rj["id"], bymap[rj["id"]]))
+                        % (s_["owner"], s_["target"], resets[bid]["low"], len(cands[key])))
+            ctx.classify(key, what, replay_obj(bid, bymap[bid]))
+        if not reported and not other:
+            # TLC rejected a run that neither pass explains: report it as it is
+            rj = rejects[0]
+            ctx.violation("real handshake code breaks C06: observed %s" % json.dumps(rj["info"].get("line", {}), sort_keys=True)[:700],
+                          replay_obj(rj["id"], bymap[rj["id"]]))
 
     # conformance with the full specification (drift only)
     conf_blocks = [(bid, evs) for bid, evs in blocks if len(evs) > 1 and resets[bid].get("model")]
@@ -315,7 +333,11 @@ def _run(ctx, replay=None):
 
 def _conformance_with_resets(ctx, blocks, resets):
     res = {}
-    for val in ("FALSE", "TRUE"):
+    # which Impl value to try first: did any recorded session go on after a degenerate hello?
+    went_on = any(e.get("ev") == "hello" and e.get("x") == "low" and not e.get("c") and e.get("out") == "frame"
+                  for _, evs in blocks for e in evs)
+    order = ("FALSE", "TRUE") if went_on else ("TRUE", "FALSE")
+    for val in order:
         left = list(blocks)
         drift = []
         rounds = 0
@@ -339,11 +361,9 @@ def _conformance_with_resets(ctx, blocks, resets):
             drift.append({"block": left[bi][0], "line": info.get("line"), "impl_checkLowOrder": val})
             left = left[:bi] + left[bi + 1:]
         res[val] = (len(left) if rounds < 3 else 0, drift)
-        if not drift:
-            break
-    best = "FALSE"
-    if res["FALSE"][1] and "TRUE" in res and len(res["TRUE"][1]) < len(res["FALSE"][1]):
-        best = "TRUE"
+        if len(drift) < 3:
+            break   # (nearly) everything conforms with this value; the other one is not tried
+    best = min(res, key=lambda v: (len(res[v][1]), v != order[0]))
     ctx.extra["impl_checkLowOrder_observed"] = best
     ctx.extra["conformant_traces"] = res[best][0]
     ctx.extra["conformance_blocks"] = len(blocks)
